@@ -115,6 +115,13 @@ type State struct {
 	ghost   map[string]Value
 	chooseSeq []int
 	trail   []int32 // every decision taken since the initial state
+	merged  bool    // passed a merge point (cannot be shipped to another worker)
+	abst    *absRec // abstractions (uninterpreted summaries) introduced on this path
+}
+
+type absRec struct {
+	uf, exact *Term
+	prev      *absRec
 }
 
 func (s *State) top() *Frame { return s.frames[len(s.frames)-1] }
@@ -123,7 +130,7 @@ func (s *State) clone() *State {
 	c := &cloner{memo: map[*Obj]*Obj{}}
 	n := &State{
 		pc: s.pc, nextObj: s.nextObj, clock: s.clock, nclock: s.nclock, forks: s.forks,
-		status: s.status, nOpaque: s.nOpaque, obs: s.obs, steps: s.steps,
+		status: s.status, nOpaque: s.nOpaque, obs: s.obs, steps: s.steps, abst: s.abst, merged: s.merged,
 	}
 	n.frames = make([]*Frame, len(s.frames))
 	for i, f := range s.frames {
